@@ -34,7 +34,7 @@ impl Fact {
         match &self.parameters {
             None => Ok(()),
             Some(parameters) => {
-                let invalid_parameters = parameters
+                let mut invalid_parameters = parameters
                     .iter()
                     .filter_map(
                         |(name, opt_term)| {
@@ -47,6 +47,11 @@ impl Fact {
                     )
                     .map(|name| name.to_string())
                     .collect::<Vec<_>>();
+                // a map key parameter bound to something else than an integer or a string
+                // can not be substituted
+                for term in &self.predicate.terms {
+                    term.extract_invalid_key_parameters(parameters, &mut invalid_parameters);
+                }
 
                 if invalid_parameters.is_empty() {
                     Ok(())
